@@ -45,6 +45,7 @@ impl Runner {
         match prop {
             p if LIB_PROPS.contains(&p) => props::libprops::n_items(self.work.as_ref().unwrap(), ctx, prop),
             "C04" => props::c04::n_items(ctx),
+            "C05" => props::c05::n_items(ctx),
             _ => 0,
         }
     }
@@ -52,6 +53,7 @@ impl Runner {
         match prop {
             p if LIB_PROPS.contains(&p) => props::libprops::run_item(self.work.as_ref().unwrap(), ctx, prop, i),
             "C04" => props::c04::run_item(ctx, i),
+            "C05" => props::c05::run_item(ctx, i),
             _ => {}
         }
     }
@@ -142,6 +144,8 @@ fn replay(args: &[String]) -> i32 {
                     props::libprops::check(&mut ctx, &prop, &ev);
                 } else if prop == "C04" {
                     props::c04::replay(&mut ctx, &case);
+                } else if prop == "C05" {
+                    props::c05::replay(&mut ctx, &case);
                 }
                 println!("{}", serde_json::to_string_pretty(&json!({"findings": ctx.findings, "evaluations": ctx.evals})).unwrap());
                 if ctx.findings.is_empty() { 0 } else { 1 }
